@@ -88,14 +88,14 @@ CHECKS = {
     "C20": (
         "progmc c20",
         "bounded-exhaustive enumeration of (permutation of globals, assignment of globals to files) configurations of base programs, each compiled by the real CLI and executed, differential against the known result",
-        "9 base programs with 4 mutually dependent movable globals (const chain, type diamond, mutual recursion, comptime block depending on later globals, generic + const + type alias, enum with array-length constant, annotated constants whose annotation is a later alias, alias chain + annotated struct constant, distinct type + comptime constant; thorough adds a 5-global base): quick = every permutation x 3 file assignments + every one of the 3^4 assignments to {main.capy, fa.capy, fb.capy} in canonical order (1377 programs); thorough = the full product of all permutations x all assignments. Cross-file references are rewritten to `file.name` with the imports added (import cycles included). Acceptance, stdout and exit status must equal the base program's result.",
+        "11 base programs with 4 mutually dependent movable globals (const chain, type diamond, mutual recursion, comptime block depending on later globals, generic + const + type alias, enum with array-length constant, annotated constants whose annotation is a later alias, alias chain + annotated struct constant, distinct type + comptime constant, a chain of constants used as an array length, a chain of constants used as comptime argument and enum discriminant; thorough adds a 5-global base): quick = every permutation x 3 file assignments + every one of the 3^4 assignments to {main.capy, fa.capy, fb.capy} in canonical order; thorough = the full product of all permutations x all assignments. Cross-file references are rewritten to `file.name` with the imports added (import cycles included); every file also defines an unrelated decoy global under the name of each movable global that lives in another file. Acceptance, stdout and exit status must equal the base program's result.",
         "4-5 movable globals per program (the quantifier allows 12).",
         "§4 C20",
     ),
     "C21": (
         "progmc c21",
         "exhaustive enumeration of configurations x compilation histories, each compiled repeatedly by the real CLI in fresh processes; byte equality of the object file and of the diagnostics is the oracle",
-        "96 configurations (27 valid multi-file programs from C20 in three orders/splits, 36 invalid variants with type errors / undefined references / missing imports / errors in two files, the 24 example programs of the repository which use the core module, one generated 129-type program, 8 programs whose comptime block chooses between types with coinciding type ids, compiled 12 extra times) x 8 (thorough 14) compilations each: three fresh processes in fresh directories (one under a deeper path), one with ASLR disabled (setarch -R), one with a different environment, and after every ordered choice of <= 1 (thorough 2) predecessors out of 3 other programs compiled in the same working directory; main.o and the complete compiler output (timings and the working-directory prefix normalised) must be identical in all of them.",
+        "110 configurations (33 valid multi-file programs from C20 in three orders/splits, 44 invalid variants with type errors / undefined references / missing imports / errors in two files, the 24 example programs of the repository which use the core module, one generated 129-type program, 8 programs whose comptime block chooses between types with coinciding type ids, compiled 12 extra times) x 10 (thorough 23) compilations each: three fresh processes in fresh directories (one under a deeper path), one with ASLR disabled (setarch -R), one with a different environment, and after every ordered choice of <= 1 (thorough 2) predecessors out of 4 other programs (one with a larger object file) compiled in the same working directory with the stale out/ left in place, and after a padded variant of the configuration itself; main.o and the complete compiler output (timings and the working-directory prefix normalised) must be identical in all of them.",
         "Address-dependent hashing inside one process is observed through the repeated fresh processes, not enumerated; the link step is excluded (--no-exec).",
         "§4 C21",
     ),
